@@ -16,7 +16,8 @@ Reqs == {
   Req("unknown-in-list", "m.s3", "f", TRUE, TRUE, FALSE, FALSE, TRUE, "none", ""),
   Req("method", "m.meth", "meth", TRUE, TRUE, FALSE, FALSE, FALSE, "none", ""),
   Req("class-of-method", "m.K", "K", TRUE, TRUE, FALSE, FALSE, FALSE, "m.meth", "meth"),
-  Req("class-of-method-bad-list", "m.K", "K", TRUE, TRUE, FALSE, FALSE, TRUE, "m.meth", "meth") }
+  Req("class-of-method-bad-list", "m.K", "K", TRUE, TRUE, FALSE, FALSE, TRUE, "m.meth", "meth"),
+  Req("class-of-method-bad-module", "m.K", "K", TRUE, FALSE, FALSE, FALSE, FALSE, "m.meth", "meth") }
 
 PredictionTable == [ a \in Apis |-> [ k \in Kinds |-> [ s \in BOOLEAN |-> Predict(a, k, s) ] ] ]
 ASSUME PrintT(ToJson(<<"PREDICT", [ a \in Apis |-> [ k \in Kinds |-> <<Predict(a, k, FALSE), Predict(a, k, TRUE)>> ] ]>>))
